@@ -186,7 +186,7 @@ def make_sched(case: dict, streams: Streams, on_yield=None) -> Scheduler:
             total += tensors.nbytes_of(spec["dtype"], spec["n"])
         except Exception:  # noqa: BLE001
             pass
-    step_cap = 100_000 + 16 * (total // max(1, sim.get("chunk") or 4096))
+    step_cap = 100_000 + 16 * (total // max(1, sim.get("chunk") or 4096)) + (2000 * len(case.get("tensors", [])) if sim.get("cfr_cap") else 0)
     sched = Scheduler(
         streams.rng("schedule"),
         choices=case.get("schedule"),
